@@ -10,7 +10,7 @@ use blots_core::values::SerializableValue;
 use proptest::prelude::*;
 use serde::{Deserialize, Serialize};
 
-pub const RULE: &str = "recursive data values (finite doubles over bit patterns and boundaries, strings over all Unicode scalars incl. quotes / backslashes / control characters, keys incl. empty, numeric-looking, needing quotes, composed vs decomposed; depth <= 6; the key __blots_function only with non-string values - numbers, booleans, null, lists, records - which is not the reserved function form): (1) value -> from_value -> to_json -> text -> from_str -> from_json -> to_value in a fresh heap, compared bit-exactly and with .== in one heap; (2) JSON text from the harness's own writer (four number spellings, escaped / raw non-ASCII) -> inputs -> `output x = inputs.x` -> JSON text, read by the harness's own JSON parser (Rust's correctly rounded float parser) and compared as JSON values; (3) a sample of both through the real CLI with -i and with piped stdin. Non-trivial = depth >= 2, or a non-integer number, or a non-ASCII string; distinct by serialised value.";
+pub const RULE: &str = "recursive data values (finite doubles over bit patterns and boundaries, strings over all Unicode scalars incl. quotes / backslashes / control characters, keys incl. empty, numeric-looking, needing quotes, composed vs decomposed; depth <= 6; the key __blots_function only with non-string values - numbers, booleans, null, lists, records - which is not the reserved function form): (1) value -> from_value -> to_json -> text -> from_str -> from_json -> to_value in a fresh heap, compared bit-exactly and with .== in one heap; (2) JSON text from the harness's own writer (four number spellings, escaped / raw non-ASCII) -> inputs -> `output x = inputs.x` -> JSON text, read by the harness's own JSON parser (Rust's correctly rounded float parser) and compared as JSON values; (3) a sample of both through the real CLI with -i and with piped stdin, including documents of 64 KiB .. 300 KiB of raw multi-byte characters at every byte alignment; (4) for every value a, the program-built aliased values [a, a] and {p: a, q: [a, {r: a}]} (one heap object reachable several times) serialise to the data they contain. Non-trivial = depth >= 2, or a non-integer number, or a non-ASCII string; distinct by serialised value.";
 pub const ASSUMPTIONS: &[&str] = &[
     "reference number conversion is Rust's str::parse::<f64> (correctly rounded), independent of serde_json's parser",
     "JSON objects with duplicate keys are not generated (their meaning is unspecified in JSON)",
@@ -131,6 +131,25 @@ impl Check for RoundTrip {
                 if s3.probe("a .== b") != Ok(MV::Bool(true)) {
                     fail!("value:not-dot-equal", "reloaded value is not .== to the original: {:?}", v);
                 }
+                // the same heap object reachable several times (values built by a program from a
+                // name, not from a literal): data, not identity, is what is written
+                for (src, expect) in [
+                    ("[a, a]", MV::List(vec![v.clone(), v.clone()])),
+                    ("{p: a, q: [a, {r: a}]}", MV::Rec(vec![("p".into(), v.clone()), ("q".into(), MV::List(vec![v.clone(), MV::Rec(vec![("r".into(), v.clone())])]))])),
+                ] {
+                    let shared = match s3.eval_src(src) {
+                        Ok(x) => x,
+                        Err(e) => fail!("harness:shared-eval", "{}: {}", src, e),
+                    };
+                    let text = match SerializableValue::from_value(&shared, &s3.heap.borrow()).map(|sv| serde_json::to_string(&sv.to_json())) {
+                        Ok(Ok(t)) => t,
+                        other => fail!("shared:serialise-fails", "`{}` with a = {:?} cannot be serialised: {:?}", src, v, other.map(|_| ()).map_err(|e| e.to_string())),
+                    };
+                    match json::parse(&text) {
+                        Ok(m) if m.same_bits(&expect) => {}
+                        other => fail!(format!("shared:{}", other.as_ref().map(|m| diff_class(&expect, m)).unwrap_or("unparseable")), "`{}` with a = {:?} was written as {}", src, v, text),
+                    }
+                }
                 Ok(())
             }
             Case::Doc { value, style } => {
@@ -164,6 +183,9 @@ impl Check for RoundTrip {
             }
             Case::Cli { value, style, stdin } => {
                 ctx.label(if *stdin { "cli-stdin" } else { "cli--i" });
+                if json::write(value, *style).len() > 65536 {
+                    ctx.label("cli:document>64KiB");
+                }
                 if nontrivial(value) {
                     ctx.nontrivial(hash_str(&format!("cli{:?}|{}", value, style)));
                 }
@@ -267,6 +289,16 @@ pub fn run(ctx: &mut Ctx) {
         cases.push(Case::Cli { value: v.clone(), style: 2, stdin: true });
     }
     ctx.run_enum(&RoundTrip, cases.into_iter(), false);
+    // documents larger than any plausible read buffer (64 KiB .. 1 MiB), multi-byte characters at every alignment
+    let big = (prop::sample::select(vec!["€", "é", "😀", "a€", "日本", "x"]), 0usize..7, 1usize..5, any::<bool>(), 0u8..4).prop_map(|(unit, pad, blocks, stdin, style)| {
+        // one command-line argument holds at most 128 KiB: only piped documents go beyond 66 KiB
+        let blocks = if stdin { blocks } else { 1 };
+        let body: String = std::iter::repeat(unit).take(blocks * 66_000 / unit.len() + 17).collect();
+        let value = MV::Rec(vec![("pad".into(), MV::Str("p".repeat(pad))), ("big".into(), MV::Str(body)), ("tail".into(), MV::List(vec![MV::Str("é😀".into()), MV::Num(F(0.1))]))]);
+        // even styles keep non-ASCII characters raw; escaped spellings (6 bytes per character) only when piped
+        Case::Cli { value, style: if stdin { style } else { style & 2 }, stdin }
+    });
+    ctx.run_random(&RoundTrip, big, ctx.tier.pick(48, 400));
     let n = ctx.tier.pick(40_000, 1_200_000);
     ctx.run_random(&RoundTrip, (crate::gen_::data_mv(5), any::<u16>()).prop_map(|(v, k)| Case::Value(with_reserved_key(v, k))), n);
     ctx.run_random(&RoundTrip, (crate::gen_::data_mv(5), 0u8..4, any::<u16>()).prop_map(|(value, style, k)| Case::Doc { value: with_reserved_key(value, k), style }), n);
